@@ -372,6 +372,10 @@ def run(tier):
     # Results of string functions must not be cut: with a requested default string size every string the program
     # touches - including the temporaries that carry hoisted function results - has that capacity.
     capacity(ctx)
+    # string capacity must not depend on what this process converted before (a scalar DIMmed by an earlier program)
+    from vf.props import c11 as _c11
+
+    _c11.history(ctx)
     # The two machines treat INSTR, STRING$ and the empty-DATA filter as contracts (the same function on both sides).
     # Discharge them here by interpreting the library text (the C20 obligations), so that a change to the library that
     # breaks a string function is a C03 finding too.
